@@ -3,8 +3,11 @@
 package core
 
 import (
+	"bufio"
 	"context"
+	"encoding/binary"
 	"fmt"
+	"io"
 	"net"
 	"net/url"
 	"os"
@@ -21,6 +24,8 @@ import (
 	"github.com/bluenviron/gortsplib/v5/pkg/base"
 	"github.com/bluenviron/gortsplib/v5/pkg/description"
 	"github.com/bluenviron/gortsplib/v5/pkg/format"
+	"github.com/bluenviron/gortsplib/v5/pkg/headers"
+	"github.com/bluenviron/gortsplib/v5/pkg/sdp"
 	"github.com/pion/rtp"
 
 	kit "github.com/bluenviron/mediamtx/internal/verifkit"
@@ -34,7 +39,8 @@ import (
 // A full Core with the RTSP and RTMP servers on kernel-assigned loopback ports, plain-text log sent
 // to a private file. Generated client lifecycles with real gortsplib / gortmplib clients and raw TCP
 // connections: publish (RTSP, RTMP), replace or be refused, read up to DESCRIBE / SETUP / PLAY,
-// PAUSE and PLAY again, RTMP reads, readers leaving, the publisher leaving while readers are attached
+// PAUSE and PLAY again, hand-written RTSP readers (raw TCP) that send PLAY while playing / PAUSE while
+// paused / drop the connection without TEARDOWN, RTMP reads, readers leaving, the publisher leaving while readers are attached
 // (the server kicks them), garbage connections, and finally the server shutting down with whatever is
 // still open. Observation = the records of the log file, grouped by their entity prefix
 // ("[RTSP] [conn ADDR]", "[RTSP] [session ID]", "[RTMP] [conn ADDR]", "[path NAME]").
@@ -182,7 +188,7 @@ func c20SScan(logText string, sides [c20SNPairs]int, complete bool) (c20SCounts,
 
 type c20Client struct {
 	id    int
-	kind  string // rtspPub | rtmpPub | rtspRead | rtmpRead | raw
+	kind  string // rtspPub | rtmpPub | rtspRead | rtmpRead | raw | rawRtsp
 	path  string
 	state string // conn | setup | play | paused | pub | dead | closed
 	rc    *gortsplib.Client
@@ -193,6 +199,52 @@ type c20Client struct {
 	w     *gortmplib.Writer
 	track *gortmplib.Track
 	seq   int
+	// raw RTSP readers only (requests written by hand: gortsplib.Client never sends PLAY while playing)
+	br      *bufio.Reader
+	cseq    int
+	session base.HeaderValue
+	playURL *base.URL
+}
+
+// rtspDo sends one RTSP request on the raw connection and returns the response, skipping interleaved frames.
+func (c *c20Client) rtspDo(req base.Request) (*base.Response, error) {
+	c.cseq++
+	if req.Header == nil {
+		req.Header = base.Header{}
+	}
+	req.Header["CSeq"] = base.HeaderValue{fmt.Sprintf("%d", c.cseq)}
+	if c.session != nil {
+		req.Header["Session"] = c.session
+	}
+	byts, err := req.Marshal()
+	if err != nil {
+		return nil, err
+	}
+	c.nc.SetDeadline(time.Now().Add(30 * time.Second)) //nolint:errcheck
+	if _, err = c.nc.Write(byts); err != nil {
+		return nil, err
+	}
+	for {
+		b, err := c.br.Peek(1)
+		if err != nil {
+			return nil, err
+		}
+		if b[0] == '$' {
+			var hdr [4]byte
+			if _, err = io.ReadFull(c.br, hdr[:]); err != nil {
+				return nil, err
+			}
+			if _, err = c.br.Discard(int(binary.BigEndian.Uint16(hdr[2:]))); err != nil {
+				return nil, err
+			}
+			continue
+		}
+		var res base.Response
+		if err = res.Unmarshal(c.br); err != nil {
+			return nil, err
+		}
+		return &res, nil
+	}
 }
 
 // pump makes a publisher send one H264 access unit. An RTMP server does not read from a connection that
@@ -322,6 +374,7 @@ func TestVerifC20Sessions(t *testing.T) {
 			pubs                                                  = map[string]*c20Client{}
 			kickedWhileReading, pausedCycle, shutdownOpen         bool
 			sawRTMPRead, sawRTMPPub, sawRaw, sawReplace           bool
+			sawPlayWhilePlaying, sawPauseWhileNotPlaying          bool
 		)
 		names := []string{"s0", "s1"}
 
@@ -395,7 +448,7 @@ func TestVerifC20Sessions(t *testing.T) {
 		// the stream of path p goes away: the server kicks every reader
 		streamGone := func(p string) {
 			for _, c := range clients {
-				if c.path == p && (c.kind == "rtspRead" || c.kind == "rtmpRead") {
+				if c.path == p && (c.kind == "rtspRead" || c.kind == "rtmpRead" || c.kind == "rawRtsp") {
 					switch c.state {
 					case "play":
 						readCloses++
@@ -423,6 +476,34 @@ func TestVerifC20Sessions(t *testing.T) {
 				t.Skip("no candidate")
 			}
 			return rapid.SampledFrom(cands).Draw(t, "client")
+		}
+
+		rawStep := func(c *c20Client, st string) {
+			hist[len(hist)-1] += " " + st
+			method := base.Play
+			if st == "PAUSE" {
+				method = base.Pause
+			}
+			res, err := c.rtspDo(base.Request{Method: method, URL: c.playURL})
+			if err != nil || res.StatusCode != base.StatusOK {
+				fail("harness precondition: raw %s in state %s: err=%v res=%v", st, c.state, err, res)
+			}
+			switch {
+			case st == "PLAY" && c.state == "play":
+				sawPlayWhilePlaying = true // same playing period: nothing opens
+			case st == "PLAY":
+				if c.state == "paused" {
+					pausedCycle = true
+				}
+				c.state = "play"
+				readOpens++
+			case st == "PAUSE" && c.state == "play":
+				c.state = "paused"
+				readCloses++
+			default:
+				sawPauseWhileNotPlaying = true // PAUSE while paused / before the first PLAY: nothing closes
+			}
+			await("after raw "+st, false)
 		}
 
 		actions := map[string]func(*rapid.T){
@@ -602,9 +683,14 @@ func TestVerifC20Sessions(t *testing.T) {
 			},
 			"readerLeaves": func(t *rapid.T) {
 				c := pickClient(t, func(c *c20Client) bool {
-					return (c.kind == "rtspRead" || c.kind == "rtmpRead" || c.kind == "raw") && c.state != "closed"
+					return (c.kind == "rtspRead" || c.kind == "rtmpRead" || c.kind == "raw" || c.kind == "rawRtsp") && c.state != "closed"
 				})
 				hist = append(hist, fmt.Sprintf("c%d.close(%s)", c.id, c.state))
+				if c.kind == "rawRtsp" && (c.state == "play" || c.state == "paused" || c.state == "setup") && rapid.Bool().Draw(t, "teardown") {
+					// orderly end; otherwise the TCP connection is simply dropped
+					hist[len(hist)-1] += "+TEARDOWN"
+					c.rtspDo(base.Request{Method: base.Teardown, URL: c.playURL}) //nolint:errcheck
+				}
 				c.close()
 				if c.state == "play" {
 					readCloses++
@@ -614,6 +700,71 @@ func TestVerifC20Sessions(t *testing.T) {
 				}
 				c.state = "closed"
 				await("after readerLeaves", false)
+			},
+			// an RTSP reader whose requests are written by hand: PLAY while playing, PAUSE while paused, ...
+			// One read pair per continuous playing period: a repeated PLAY does not open a new pair.
+			"rawRtspRead": func(t *rapid.T) {
+				// prefer a path that has a publisher (otherwise the reader stops at DESCRIBE)
+				cand := names
+				var live []string
+				for _, n := range names {
+					if pubs[n] != nil {
+						live = append(live, n)
+					}
+				}
+				if len(live) > 0 && rapid.IntRange(0, 4).Draw(t, "preferLive") > 0 {
+					cand = live
+				}
+				p := rapid.SampledFrom(cand).Draw(t, "path")
+				steps := rapid.SliceOfN(rapid.SampledFrom([]string{"PLAY", "PLAY", "PAUSE"}), 1, 5).Draw(t, "steps")
+				c := newClient("rawRtsp", p)
+				hist = append(hist, fmt.Sprintf("c%d=rawRtspRead(%s)", c.id, p))
+				nc, err := net.DialTimeout("tcp", fmt.Sprintf("127.0.0.1:%d", core.Ports["rtsp"]), 10*time.Second)
+				if err != nil {
+					fail("harness: dial: %v", err)
+				}
+				c.nc, c.br, c.state = nc, bufio.NewReader(nc), "conn"
+				conns++
+				u, _ := base.ParseURL(rtspURL(p))
+				res, err := c.rtspDo(base.Request{Method: base.Describe, URL: u})
+				if err != nil || (res.StatusCode == base.StatusOK) != (pubs[p] != nil) {
+					fail("harness precondition: raw DESCRIBE err=%v res=%v while publisher present=%v", err, res, pubs[p] != nil)
+				}
+				if res.StatusCode == base.StatusOK {
+					var sd sdp.SessionDescription
+					if err := sd.Unmarshal(res.Body); err != nil || len(sd.MediaDescriptions) == 0 {
+						fail("harness: SDP: %v", err)
+					}
+					control, _ := sd.MediaDescriptions[0].Attribute("control")
+					cu, _ := base.ParseURL(rtspURL(p) + "/" + control)
+					mode := headers.TransportModePlay
+					res, err = c.rtspDo(base.Request{Method: base.Setup, URL: cu, Header: base.Header{
+						"Transport": headers.Transport{Mode: &mode, Protocol: headers.TransportProtocolTCP, InterleavedIDs: &[2]int{0, 1}}.Marshal(),
+					}})
+					if err != nil || res.StatusCode != base.StatusOK {
+						fail("harness precondition: raw SETUP err=%v res=%v", err, res)
+					}
+					var sx headers.Session
+					if err := sx.Unmarshal(res.Header["Session"]); err != nil {
+						fail("harness: Session header: %v", err)
+					}
+					c.session = base.HeaderValue{sx.Session}
+					c.playURL, _ = base.ParseURL(rtspURL(p) + "/")
+					c.state = "setup"
+					await("after raw SETUP", false)
+					for _, st := range steps {
+						rawStep(c, st)
+					}
+				}
+				await("after rawRtspRead", false)
+			},
+			"rawRtspStep": func(t *rapid.T) {
+				c := pickClient(t, func(c *c20Client) bool {
+					return c.kind == "rawRtsp" && (c.state == "setup" || c.state == "play" || c.state == "paused")
+				})
+				st := rapid.SampledFrom([]string{"PLAY", "PLAY", "PAUSE"}).Draw(t, "request")
+				hist = append(hist, fmt.Sprintf("c%d:", c.id))
+				rawStep(c, st)
 			},
 			"rawConn": func(t *rapid.T) {
 				proto := rapid.SampledFrom([]string{"rtsp", "rtmp"}).Draw(t, "proto")
@@ -645,6 +796,7 @@ func TestVerifC20Sessions(t *testing.T) {
 		actions["rtspPause#2"] = actions["rtspPause"]
 		actions["rtspPlay#2"] = actions["rtspPlay"]
 		actions["readerLeaves#2"] = actions["readerLeaves"]
+		actions["rawRtspStep#2"] = actions["rawRtspStep"]
 		t.Repeat(actions)
 
 		// ---- the server shuts down with whatever is still open
@@ -678,10 +830,12 @@ func TestVerifC20Sessions(t *testing.T) {
 		add(sawRTMPPub, "rtmp-publisher")
 		add(sawRaw, "raw-connection")
 		add(sawReplace, "publisher-replaced")
+		add(sawPlayWhilePlaying, "rtsp-play-while-playing")
+		add(sawPauseWhileNotPlaying, "rtsp-pause-while-not-playing")
 		add(availOpens >= 2, "multi-available")
 		add(readOpens >= 2, "multi-read")
 		cls = append(cls, "connect-sides:"+c20SideNames[sides[c20SConnect]], "read-sides:"+c20SideNames[sides[c20SRead]])
-		nontrivial := (availOpens >= 2 && readOpens >= 1) || kickedWhileReading || pausedCycle || (shutdownOpen && readOpens >= 1)
+		nontrivial := (availOpens >= 2 && readOpens >= 1) || kickedWhileReading || pausedCycle || sawPlayWhilePlaying || (shutdownOpen && readOpens >= 1)
 		rec.Case(nontrivial, fmt.Sprintf("[connect=%s read=%s override=%v] %s", c20SideNames[sides[c20SConnect]],
 			c20SideNames[sides[c20SRead]], override, strings.Join(hist, " ; ")), cls...)
 		c20SessPassed++
